@@ -206,6 +206,15 @@ def run(ctx):
     rt = results[cw.qual][1]
     ctx.ob("R-DEG", "C02.4", cw, "compute_weights returns (log-evidence of degree 1, log-weights of degree 0)", rt is not None and rt == [Fraction(1), Fraction(0)], f"degrees {[s(x) for x in rt] if rt else None}")
     ctx.floor("C02.4", 5)
+    # a value handed out by a property is modified in place only if the getter returns a fresh object (R-ALIAS):
+    # effective_n_posterior_samples normalises the posterior weights in place - fine as long as log_posterior_weights
+    # computes them anew on every call and keeps nothing
+    from ..rules import alias as _alias
+    _al = _alias.scan(prog)
+    ctx.require(len(_al) >= 1, "no in-place consumer of a property value found (effective_n_posterior_samples expected)")
+    for _f, _mod, _attr, _c, _ok, _why in _al:
+        ctx.ob("R-ALIAS", "C02.7", _f, f"the value of property `{_attr}` is modified in place only because every getter of that name returns a fresh object", _ok, _why, node=_mod)
+    ctx.floor("C02.7", 1)
     ctx.extra["expressions_typed"] = n_expr
     ctx.assumptions += ["exact arithmetic for the offset clause (floating-point agreement with arbitrary precision is not decided)", "numpy/scipy semantics of logaddexp, logsumexp, log1p, cumsum"]
 
